@@ -929,6 +929,115 @@ def rule_float_sat(ctx, cd, rule_id: str):
     ctx.floor(rule_id, n, 6)
 
 
+def rule_clamp(ctx, cd, rule_id: str):
+    """Saturation replaces a value below the range by the lower bound and a value above it by the upper bound.  The comparisons and
+    the bounds are all printed from t.inclusive_value_range; which end goes with which comparison is in the shape of the template."""
+    ctx.rule(
+        rule_id,
+        "in every path of the integer and float serializer macros (C, C++, Python) each recognised clamp - `if (v < B) { v = B; }`, "
+        "`v = (v < B) ? B : v`, Python `if v > B: emit(B)`, and min(..)/max(..) calls that take a bound - compares with the bound it "
+        "then stores, compares the variable it then overwrites, takes the lower bound (inclusive_value_range[0] / .min) from below / in "
+        "max(), and the upper bound ([1] / .max) from above / in min()",
+    )
+    n = 0
+    for lang in ("c", "cpp", "py"):
+        t = cd.tmpl(lang, "ser")
+        for mname in ("_serialize_integer", "_serialize_float"):
+            if not cd.has_macro(lang, "ser", mname):
+                continue
+            seen = set()
+            for p in cd.paths(lang, "ser", mname):
+                lo = {nm for nm, k in p.ph if isinstance(k, str) and "inclusive_value_range" in k and ("[0]" in k or ".min" in k)}
+                hi = {nm for nm, k in p.ph if isinstance(k, str) and "inclusive_value_range" in k and ("[1]" in k or ".max" in k)}
+                if not (lo | hi):
+                    continue
+                text = cd.text(lang, p)
+
+                def side(op, b):
+                    return (op.startswith("<") and b in lo) or (op.startswith(">") and b in hi)
+
+                found = []      # (snippet, ok, why)
+                if lang in ("c", "cpp"):
+                    for m in re.finditer(r"if ?\( ?(\w+) ?(<=?|>=?) ?(Pz\d+z)\w* ?\) ?\{ ?(\w+) = (Pz\d+z)\w* ?; ?\}", text):
+                        v1, op, b1, v2, b2 = m.groups()
+                        if b1 in lo | hi or b2 in lo | hi:
+                            found.append((m.group(0), v1 == v2 and b1 == b2 and side(op, b1), (op, b1 in lo, b2 in lo)))
+                    for m in re.finditer(r"(\w+) = \(? ?(\w+) ?(<=?|>=?) ?(Pz\d+z)\w* ?\)? ?\? ?(Pz\d+z)\w* ?: ?(\w+) ?;", text):
+                        v0, v1, op, b1, b2, v2 = m.groups()
+                        if b1 in lo | hi or b2 in lo | hi:
+                            found.append((m.group(0), v0 == v1 == v2 and b1 == b2 and side(op, b1), (op, b1 in lo, b2 in lo)))
+                else:
+                    for m in re.finditer(r"\b(?:el)?if (\w+) (<=?|>=?) (Pz\d+z)(?:\.0)? ?: (\w+)\((Pz\d+z)(?:\.0)?\)", text):
+                        v1, op, b1, _f, b2 = m.groups()
+                        if b1 in lo | hi or b2 in lo | hi:
+                            found.append((m.group(0), b1 == b2 and side(op, b1), (op, b1 in lo, b2 in lo)))
+                # min(.., HI) / max(.., LO) in any of the languages (std::min, fmin, fminf, _np_.minimum ...)
+                for m in re.finditer(r"\b(?:std::)?(f?min|f?max)f?l? ?\(", text):
+                    kind = "min" if "min" in m.group(1) else "max"
+                    depth, i, args, cur = 1, m.end(), [], ""
+                    while i < len(text) and depth:
+                        ch = text[i]
+                        if ch == "(":
+                            depth += 1
+                        elif ch == ")":
+                            depth -= 1
+                            if depth == 0:
+                                break
+                        if ch == "," and depth == 1:
+                            args.append(cur.strip())
+                            cur = ""
+                        else:
+                            cur += ch
+                        i += 1
+                    args.append(cur.strip())
+                    for a in args:
+                        ma = re.fullmatch(r"(Pz\d+z)(?:\.0)?\w{0,3}", a)
+                        if ma and ma.group(1) in lo | hi:
+                            b = ma.group(1)
+                            found.append((f"{kind}(.., {b})", (kind == "min" and b in hi) or (kind == "max" and b in lo), (kind, b in lo)))
+                for snip, ok, sig in found:
+                    key = (re.sub(r"Pz\d+z", "P", snip), ok, sig)
+                    if key in seen:
+                        continue
+                    seen.add(key)
+                    n += 1
+                    shown = unplaceholder(p, snip)
+                    ctx.ob(rule_id, t.rel, f"{lang}: {mname}: `{shown[:110]}` stores the bound it compares with, the lower bound from below, the upper from above",
+                           ok, "" if ok else "the clamp stores another bound than the one it tests, overwrites another variable, or takes the wrong end of the "
+                           "range: out-of-range values are not saturated to the nearest representable value", None)
+    ctx.floor(rule_id, n, 6)
+
+
+def rule_union_tag(ctx, cd, which: str, rule_id: str):
+    """The tag of the n-th union option is n, counted from zero, on the wire.  The templates print it from the loop over the options."""
+    N = cd.N
+    ctx.rule(
+        rule_id,
+        "inside every loop over the options of a union (`for f, offset in <type>.iterate_fields_with_offsets()` under a `is UnionType` "
+        "test) of the C, C++ and Python " + ("serialization" if which == "ser" else "deserialization") + " templates the position of the "
+        "option is taken from `loop.index0` (zero based) and never from loop.index / revindex / length; the loop is not filtered",
+    )
+    n = 0
+    for lang in ("c", "cpp", "py"):
+        t = cd.tmpl(lang, which)
+        loops = []
+        for mac in cd.ts.macros(t).values():
+            for node, stack in j2front.walk(mac):
+                if isinstance(node, N.For) and xs(node.iter).endswith(".iterate_fields_with_offsets()") and \
+                        any("UnionType" in e and pol for e, pol in j2front.facts(stack)):
+                    loops.append((mac, node))
+        for mac, lp in loops:
+            attrs = [g.attr for b in lp.body for g in [b] + list(b.find_all(N.Getattr)) if isinstance(g, N.Getattr) and isinstance(g.node, N.Name) and g.node.name == "loop"]
+            pos = [a for a in attrs if a in ("index", "index0", "revindex", "revindex0", "length")]
+            if not pos:
+                continue      # the option is named another way (C++: VariantType::IndexOf::<name>)
+            n += 1
+            ok = all(a == "index0" for a in pos) and lp.test is None
+            ctx.ob(rule_id, t.rel, f"{lang}: {mac.name}: union option loop counts the options from zero (loop.index0), unfiltered", ok,
+                   "" if ok else f"loop.{sorted(set(pos) - {'index0'})} used / loop filtered: the tag on the wire is not the index of the option", lp.lineno)
+    ctx.floor(rule_id, n, 2)
+
+
 # ---- what the padding macro itself emits -------------------------------------------------------------------------------------
 def rule_pad_body(ctx, cd, which: str, rule_id: str):
     """The padding macros: the serializer writes zeros into the gap through the bounds-checked primitive (or with a mask that keeps
